@@ -97,6 +97,16 @@ class BasicDSG(DSG):
             removed_edges |= derived_edges
             removed_nodes |= derived_nodes
 
+        # Also remove nodes that cannot be reached from the start nodes at all (e.g. unreachable derivation loops)
+        reachable_nodes = set(start_nodes)
+        next_nodes = list(start_nodes)
+        while len(next_nodes) > 0:
+            for edge in iter_out_edges(graph, next_nodes.pop()):
+                if get_edge_type(edge) in {EdgeType.DERIVES, EdgeType.CONNECTS} and edge[1] not in reachable_nodes:
+                    reachable_nodes.add(edge[1])
+                    next_nodes.append(edge[1])
+        removed_nodes |= {node for node in graph.nodes if node not in reachable_nodes}
+
         if len(removed_edges) > 0 or len(removed_nodes) > 0:
             dsg = dsg.get_for_adjusted(removed_edges=removed_edges, removed_nodes=removed_nodes)
 
